@@ -13,6 +13,8 @@
         which holds the guarding mutex around the access;
       - [COwned]: the object is confined to one goroutine at a time (iterators,
         builders, a task before it is handed over through the queue channel).
+    Package-level variables are classified the same way (type column
+    "<pkgvar>"): all of them are immutable after initialisation.
     Method calls on sync / sync/atomic objects reached through fields or slice
     elements are compared with an exact list of the known sites ([sync_sites]):
     a new Store / CompareAndSwap / Lock ... site is not accepted silently.
@@ -130,7 +132,21 @@ Definition field_classes : list (string * string * string * class) := [
   ("worker-pool", "Task", "executor", CImmutable []);
   ("worker-pool", "Task", "future", CImmutable []);
   ("worker-pool", "TaskResult", "Err", CImmutable []);
-  ("worker-pool", "TaskResult", "Result", CImmutable [])
+  ("worker-pool", "TaskResult", "Result", CImmutable []);
+  (* package-level variables (type column "<pkgvar>"): set by init() / their declaration, read-only afterwards;
+     [logger] is configuration installed through SetDefaultLogger before the breakers are used *)
+  ("adder", "<pkgvar>", "maxCells", CImmutable ["init"]);
+  ("circuit-breaker", "<pkgvar>", "ErrFailFast", CImmutable []);
+  ("circuit-breaker", "<pkgvar>", "ErrTickerDurationInvalid", CImmutable []);
+  ("circuit-breaker", "<pkgvar>", "EventCountZero", CImmutable []);
+  ("circuit-breaker", "<pkgvar>", "SystemTicker", CImmutable []);
+  ("circuit-breaker", "<pkgvar>", "logger", CImmutable ["SetDefaultLogger"]);
+  ("circuit-breaker", "<pkgvar>", "noOpCounter", CImmutable []);
+  ("circuit-breaker", "<pkgvar>", "startTick", CImmutable []);
+  ("retry", "<pkgvar>", "ErrInvalidSpecFormat", CImmutable []);
+  ("retry", "<pkgvar>", "NoDelayBackoff", CImmutable []);
+  ("retry", "<pkgvar>", "NoRetry", CImmutable []);
+  ("worker-pool", "<pkgvar>", "numCPU", CImmutable ["init"])
 ].
 
 Definition sync_sites : list (string * string * string * string) := [
